@@ -82,7 +82,7 @@ func (P) Nontrivial(ops []string, impl []string) bool {
 	for i, op := range ops {
 		if strings.HasPrefix(op, "scn ") {
 			for _, pt := range []string{"reqmod", "rt", "resmod", "write", "gate", "late", "head", "rbody", "wbody",
-				"tunnel", "cdial", "mpeek", "hjq", "hjs", "h2s"} {
+				"tunnel", "cdial", "mpeek", "hjq", "hjs", "h2s", "phead"} {
 				if strings.Contains(op, pt) {
 					return true
 				}
@@ -142,6 +142,7 @@ type world struct {
 	tacc      map[string]net.Conn // target-side connections of the tunnels, by the proxy's local address
 	tdial     map[int]string      // local address of the proxy's connection to the target, by connection index
 	mitm      bool
+	raw       bool // the proxy is handed the accepted *net.TCPConn itself (no observing wrapper)
 }
 
 // cplan says where (if anywhere) the k-th connection is to be parked.
@@ -427,6 +428,11 @@ func (l *wlistener) Accept() (net.Conn, error) {
 	w.conns[c.RemoteAddr().String()] = sc
 	w.log.add("acc:%d", k)
 	w.mu.Unlock()
+	if w.raw {
+		// code that asks "is this a real TCP connection?" (socket options) must see one: the proxy gets the
+		// connection itself; sc only keeps the books (plan, index), the server side is not observed
+		return c, nil
+	}
 	return sc, nil
 }
 
@@ -871,6 +877,9 @@ type client struct {
 	secHost string      // MITM'd tunnel: authority of the requests sent inside it
 	aborted int32       // the client gave up on purpose: read errors are not the proxy's fault
 	closed  int32       // the client closed its end on purpose
+	rchunk  int         // slow reader: bytes per read (0 = unthrottled)
+	rpause  time.Duration
+	rfrom   int
 }
 
 func (cl *client) sent(connect bool) {
@@ -1069,6 +1078,26 @@ func (cl *client) key() string {
 	return "@" + cl.addr
 }
 
+// slowReader: a client that never stops but drains slower than the proxy writes.
+type slowReader struct {
+	r     io.Reader
+	chunk int
+	pause time.Duration
+	cl    *client
+	from  int32 // throttled from this response on (the warm-up exchanges are read at full speed)
+}
+
+func (s *slowReader) Read(p []byte) (int, error) {
+	if atomic.LoadInt32(&s.cl.resps) < s.from {
+		return s.r.Read(p)
+	}
+	if len(p) > s.chunk {
+		p = p[:s.chunk]
+	}
+	time.Sleep(s.pause)
+	return s.r.Read(p)
+}
+
 func (cl *client) resume() {
 	cl.honce.Do(func() { close(cl.hold) })
 }
@@ -1076,6 +1105,9 @@ func (cl *client) resume() {
 func (cl *client) reader() {
 	defer close(cl.eof)
 	br := bufio.NewReader(cl.c)
+	if cl.rchunk > 0 {
+		br = bufio.NewReaderSize(&slowReader{cl.c, cl.rchunk, cl.rpause, cl, int32(cl.rfrom)}, 4096)
+	}
 	for n := 0; ; n++ {
 		cl.c.SetReadDeadline(time.Now().Add(40 * time.Second))
 		if _, err := br.Peek(1); err != nil { // closed between responses (EOF or reset): no partial response
@@ -1209,6 +1241,9 @@ type scenario struct {
 	mitm  bool // m=1: the proxy MITMs CONNECT; the connections parked at the six points are MITM'd tunnels
 	abort bool // ab=1: after the stall the clients of the stalled connections close instead of reading
 	nclose int // cl: number of concurrent callers of Close() (default 1)
+	rchunk int // rk: KiB the clients of the parked exchanges read at a time (0 = as fast as they can)
+	rpause int // rp: µs they pause between two reads
+	raw    bool // rw=1: the proxy serves the accepted *net.TCPConn itself; only modifiers and clients are observed
 }
 
 // inTunnel: connection k does CONNECT + TLS first and is driven to its point inside the MITM'd tunnel.
@@ -1217,7 +1252,7 @@ func (sc *scenario) inTunnel(k int) bool {
 		return false
 	}
 	switch sc.pts[k] {
-	case "idle", "head", "reqmod", "rt", "resmod", "write":
+	case "idle", "head", "phead", "reqmod", "rt", "resmod", "write":
 		return true
 	}
 	return false
@@ -1304,7 +1339,17 @@ func parseScn(op string) (*scenario, bool) {
 				return nil, false
 			}
 			sc.sbuf = n
-		case "t", "te", "m", "ab":
+		case "rk", "rp":
+			n, err := strconv.Atoi(kv[1])
+			if err != nil || n < 0 || n > 100000 {
+				return nil, false
+			}
+			if kv[0] == "rk" {
+				sc.rchunk = n
+			} else {
+				sc.rpause = n
+			}
+		case "t", "te", "m", "ab", "rw":
 			if kv[1] != "0" && kv[1] != "1" {
 				return nil, false
 			}
@@ -1317,6 +1362,8 @@ func parseScn(op string) (*scenario, bool) {
 				sc.mitm = kv[1] == "1"
 			case "ab":
 				sc.abort = kv[1] == "1"
+			case "rw":
+				sc.raw = kv[1] == "1"
 			}
 		case "cl":
 			n, err := strconv.Atoi(kv[1])
@@ -1345,6 +1392,9 @@ func parseScn(op string) (*scenario, bool) {
 	}
 	if sc.nclose == 0 {
 		sc.nclose = 1
+	}
+	if sc.raw && (sc.mitm || sc.stall > 0) {
+		return nil, false
 	}
 	n := len(sc.pts)
 	if n < 1 || n > 4 {
@@ -1375,8 +1425,12 @@ func parseScn(op string) (*scenario, bool) {
 		seen[o] = true
 	}
 	for i, p := range sc.pts {
+		if sc.raw && p != "reqmod" && p != "rt" && p != "resmod" { // the points that need no server-side observer
+			return nil, false
+		}
 		switch p {
 		case "idle", "head", "reqmod", "rt", "resmod", "write":
+		case "phead": // mid request head, the fragment having arrived in the same segment as the previous request
 		case "rbody", "wbody":
 			// rbody: the proxy does not read the origin's body while parked in the response modifier —
 			// the first half must fit the socket buffers
@@ -1435,6 +1489,9 @@ func runScenario(sc *scenario) (trace []string, v verdict, counted map[int]bool)
 		if sc.inTunnel(k) {
 			plans[k].parkSeq++ // the CONNECT that opened the tunnel was request 0
 		}
+		if sc.pts[k] == "phead" {
+			plans[k].parkSeq = -1 // no exchange of this connection is parked (its q/s flags mean nothing)
+		}
 	}
 	w, err := newWorldT(sc.body, plans, sc.real, sc.chunk, sc.mitm)
 	if err != nil {
@@ -1442,6 +1499,10 @@ func runScenario(sc *scenario) (trace []string, v verdict, counted map[int]bool)
 		return nil, v, nil
 	}
 	w.sbuf = sc.sbuf
+	w.raw = sc.raw
+	if sc.raw {
+		w.log.add("raw")
+	}
 	counted = map[int]bool{}
 	clients := make([]*client, n)
 	defer func() {
@@ -1496,6 +1557,12 @@ func runScenario(sc *scenario) (trace []string, v verdict, counted map[int]bool)
 			cl.hold = make(chan struct{})
 			cl.holdSeq = sc.x[k]
 		}
+		if sc.rchunk > 0 {
+			switch sc.pts[k] {
+			case "reqmod", "rt", "resmod", "write", "rbody", "wbody":
+				cl.rchunk, cl.rpause, cl.rfrom = sc.rchunk<<10, time.Duration(sc.rpause)*time.Microsecond, sc.x[k]
+			}
+		}
 		if sc.inTunnel(k) {
 			if err := cl.mitmConnect(fmt.Sprintf("m%d.c07.test", k), true); err != nil {
 				v.set("c07:no-progress:mitm", "connection %d: no MITM'd tunnel: %v", k, err)
@@ -1511,6 +1578,13 @@ func runScenario(sc *scenario) (trace []string, v verdict, counted map[int]bool)
 		}
 		go cl.reader()
 		return true
+	}
+	// the end of connection k: its handler's conn.Close(); in raw mode (no server-side observer) the client's EOF
+	connClosed := func(k int) <-chan struct{} {
+		if sc.raw && clients[k] != nil {
+			return clients[k].eof
+		}
+		return w.byIdx[k].closed
 	}
 	serverIdle := func(k int, minRead int64) bool {
 		sc := w.byIdx[k]
@@ -1558,6 +1632,27 @@ func runScenario(sc *scenario) (trace []string, v verdict, counted map[int]bool)
 		case "idle":
 			if !serverIdle(k, sent) {
 				v.set("c07:no-progress:idle", "connection %d: handler did not reach the request read", k)
+				return w.log.snapshot(), v, counted
+			}
+		case "phead":
+			// pipelining: one more complete request and the first half of the next head in ONE write, so that
+			// the fragment is already in the proxy's read buffer when the exchange is over
+			full := cl.reqBytes(false)
+			w.log.add("snd:%d:f:0", k)
+			cl.sent(false)
+			cl.seq++
+			next := cl.reqBytes(false)
+			part := next[:len(next)/2]
+			w.log.add("snd:%d:p", k)
+			cl.c.SetWriteDeadline(time.Now().Add(stepDeadline))
+			cl.c.Write(append(append([]byte{}, full...), part...))
+			want := int32(sc.x[k] + 1)
+			if !poll(stepDeadline, func() bool { return atomic.LoadInt32(&cl.resps) >= want }) {
+				v.set("c07:no-progress:phead", "connection %d: no complete response to the pipelined exchange", k)
+				return w.log.snapshot(), v, counted
+			}
+			if !serverIdle(k, sent+int64(len(full)+len(part))) {
+				v.set("c07:no-progress:phead", "connection %d: handler did not read the pipelined partial head", k)
 				return w.log.snapshot(), v, counted
 			}
 		case "head":
@@ -1663,7 +1758,12 @@ func runScenario(sc *scenario) (trace []string, v verdict, counted map[int]bool)
 	for _, k := range sc.order {
 		switch sc.pts[k] {
 		case "idle", "late":
-		case "head":
+		case "head", "phead":
+			// shutdown in the middle of a request head closes the connection as it is: the handler must not wait
+			// for the rest of the head (nor for the client to go away). Only then does the client send the rest.
+			if !waitCh(w.byIdx[k].closed, stepDeadline) {
+				v.set("c07:conn-not-closed", "connection %d (%s: half of a request head received) was not closed within %v of shutdown while the head was still incomplete", k, sc.pts[k], stepDeadline)
+			}
 			b := clients[k].reqBytes(false)
 			w.log.add("snd:%d:f:0", k) // the request is complete now (too late: the handler has given up)
 			clients[k].c.SetWriteDeadline(time.Now().Add(time.Second))
@@ -1725,8 +1825,8 @@ func runScenario(sc *scenario) (trace []string, v verdict, counted map[int]bool)
 				stalled = append(stalled, k) // its client is not reading: it is drained after the stall
 				continue
 			}
-			if !waitCh(w.byIdx[k].closed, stepDeadline) {
-				v.set("c07:conn-not-closed", "connection %d (parked in %s) was not closed within %v of its release during shutdown", k, sc.pts[k], stepDeadline)
+			if !waitCh(connClosed(k), 2*stepDeadline) {
+				v.set("c07:conn-not-closed", "connection %d (parked in %s) was not closed within %v of its release during shutdown", k, sc.pts[k], 2*stepDeadline)
 			}
 		}
 	}
@@ -1768,7 +1868,7 @@ func runScenario(sc *scenario) (trace []string, v verdict, counted map[int]bool)
 		if v.fail != "" {
 			d = 200 * time.Millisecond
 		}
-		if !waitCh(w.byIdx[k].closed, d) {
+		if !sc.raw && !waitCh(w.byIdx[k].closed, d) {
 			v.set("c07:conn-not-closed", "connection %d (%s) was never closed by its handler", k, sc.pts[k])
 		}
 		if clients[k] != nil && !waitCh(clients[k].eof, d) {
@@ -1806,9 +1906,12 @@ func judge(trace []string) (v verdict, early bool) {
 	counted := map[int]bool{}
 	evs := make([]ev, len(trace))
 	posRet, posObs, posCall := -1, -1, -1
+	rawMode := false // no server-side observer: only the modifiers and the clients speak
 	for i, s := range trace {
 		evs[i] = parseEv(s)
 		switch evs[i].kind {
+		case "raw":
+			rawMode = true
 		case "ret":
 			posRet = i
 		case "obs":
@@ -1924,7 +2027,7 @@ func judge(trace []string) (v verdict, early bool) {
 			}
 		}
 		// (inside a MITM'd tunnel the server-side writes are TLS records: only the client side is observed)
-		if !c.tls && nwe+c.hj != len(c.rqs) && !(c.cx && nwe+c.hj+1 == len(c.rqs)) {
+		if !c.tls && !rawMode && nwe+c.hj != len(c.rqs) && !(c.cx && nwe+c.hj+1 == len(c.rqs)) {
 			v.set("c07:incomplete-response", "connection %d: closed with %d responses completely written for %d started exchanges", k, nwe, len(c.rqs))
 		}
 		// marked connection-close whenever shutdown was observable at the close decision (the i-th return
@@ -1952,7 +2055,7 @@ func judge(trace []string) (v verdict, early bool) {
 			v.set("c07:late-conn-served", "connection %d was accepted after shutdown was observable; its handler went on to serve it (request reads: %v, request modifier starts: %d, responses: %d)", k, c.rd >= 0, len(c.rqs), c.ws)
 		}
 		// Close returns only after every accepted connection has been closed by its handler
-		if posRet >= 0 && c.acc < posRet && (c.cc < 0 || c.cc > posRet) {
+		if !rawMode && posRet >= 0 && c.acc < posRet && (c.cc < 0 || c.cc > posRet) {
 			early = true
 			if counted[k] {
 				v.set("c07:close-returned-before-counted-handler-done", "Close() returned while connection %d, whose handler was already serving it, was not closed", k)
@@ -1970,7 +2073,7 @@ func render(trace []string) string {
 	for _, t := range trace {
 		e := parseEv(t)
 		switch e.kind {
-		case "open", "head", "bad", "resume": // not part of the model's alphabet (bad: oracle only)
+		case "open", "head", "bad", "resume", "raw": // not part of the model's alphabet (bad: oracle only)
 			continue
 		}
 		if strings.Contains(t, "@") { // client event of a connection that was never accepted
@@ -2060,7 +2163,14 @@ func (e *ex) do(op string) core.Result {
 		if os.Getenv("C07_TRACE") != "" {
 			fmt.Fprintln(os.Stderr, "C07_TRACE", op, "|", strings.Join(trace, " "))
 		}
-		return core.Result{Impl: implLine(trace, early), Fail: detail, Sig: v.sig, ModelOp: render(trace)}
+		if sc.raw {
+			core.Count("raw-tcp-conn")
+		}
+		if sc.rchunk > 0 {
+			core.Count("slow-reader")
+		}
+		// without server-side events (raw mode) the trace cannot be validated against the model: oracle only
+		return core.Result{Impl: implLine(trace, early), Fail: detail, Sig: v.sig, ModelOp: render(trace), SkipModel: sc.raw}
 	case strings.HasPrefix(op, "race "):
 		return doRace(op)
 	}
@@ -2318,7 +2428,7 @@ func randScn(r *core.Rand, special bool) string {
 }
 
 // real-transport scenarios (t=1): points of the upstream phase first
-var realPoints = []string{"rt", "rbody", "wbody", "rt", "rbody", "wbody", "reqmod", "resmod", "write", "idle", "head"}
+var realPoints = []string{"rt", "rbody", "wbody", "rt", "rbody", "wbody", "reqmod", "resmod", "write", "idle", "head", "phead"}
 
 func realOp(pts []string, x, q, s, o []int, body, chunked, delay int) string {
 	return scnOp(pts, x, q, s, o, body) + fmt.Sprintf(" t=1 te=%d d=%d", chunked, delay)
@@ -2377,8 +2487,8 @@ func realGrid(emit func(ops []string), full bool) {
 
 // extended point sets of round 3
 var (
-	blindPoints = []string{"idle", "head", "reqmod", "rt", "resmod", "write", "tunnel", "cdial", "creqmod", "cresmod", "hjq", "hjs"}
-	mitmPoints  = []string{"idle", "head", "reqmod", "rt", "resmod", "write", "mpeek", "hjq", "hjs", "h2s"}
+	blindPoints = []string{"idle", "head", "reqmod", "rt", "resmod", "write", "phead", "tunnel", "cdial", "creqmod", "cresmod", "hjq", "hjs"}
+	mitmPoints  = []string{"idle", "head", "reqmod", "rt", "resmod", "write", "phead", "mpeek", "hjq", "hjs", "h2s"}
 )
 
 func extOp(pts []string, x, q, s, o []int, body int, mitm bool, ncl int) string {
@@ -2428,6 +2538,47 @@ func randExt(r *core.Rand) string {
 	return extOp(pts, x, q, s, ps[r.Intn(len(ps))], body, mitm, ncl)
 }
 
+// slowScn: clients that never stop reading but drain slower than the proxy writes (rk KiB every rp µs), a
+// multi-MiB response, shutdown in the middle of the exchange. raw: the proxy is handed the accepted
+// *net.TCPConn itself (whatever it does to real TCP sockets — socket options at close, linger — happens),
+// the response is judged at the client: every byte of the body, then a clean end of stream.
+func slowScn(r *core.Rand, raw bool) string {
+	n := r.Range(1, 2)
+	pool := []string{"reqmod", "rt", "resmod"}
+	if !raw {
+		pool = append(pool, "write")
+	}
+	pts := make([]string, n)
+	x, q, s := make([]int, n), make([]int, n), make([]int, n)
+	for i := range pts {
+		pts[i] = pool[r.Intn(len(pool))]
+		if r.Chance(1, 4) {
+			x[i] = 1
+		}
+		if r.Chance(1, 6) {
+			q[i] = 1
+		}
+		if r.Chance(1, 6) {
+			s[i] = 1
+		}
+	}
+	ps := perms(n)
+	op := scnOp(pts, x, q, s, ps[r.Intn(len(ps))], []int{4 << 20, 8 << 20, 16 << 20}[r.Intn(3)])
+	if r.Chance(1, 3) {
+		op += fmt.Sprintf(" t=1 te=%d d=0", r.Intn(2))
+	}
+	// about 32 MB/s (16 MiB in half a second): slower than the proxy writes, fast enough for loaded machines
+	rk := []int{16, 32, 64}[r.Intn(3)]
+	op += fmt.Sprintf(" rk=%d rp=%d", rk, rk*31)
+	if sb := []int{0, 0, 64, 128}[r.Intn(4)]; sb > 0 {
+		op += fmt.Sprintf(" sb=%d", sb)
+	}
+	if raw {
+		op += " rw=1"
+	}
+	return op
+}
+
 // abortScn: the clients of the parked exchanges give up (close) while a response far larger than the
 // socket buffers is being written to them during the drain phase.
 func abortScn(r *core.Rand) string {
@@ -2464,6 +2615,7 @@ func extGrid(emit func(ops []string), full bool) {
 		one("cresmod", x, 0, 0, false, 1)
 		one("hjq", x, 0, 0, false, 1)
 		one("hjs", x, 0, 0, false, 1)
+		one("phead", x, 0, 0, false, 1) // mid request head reached by pipelining
 		for _, p := range mitmPoints {
 			if p == "h2s" && x > 0 {
 				continue
@@ -2608,6 +2760,9 @@ func (P) Gen(r *core.Rand, tier string, emit func(ops []string)) {
 		for i := 0; i < 60; i++ {
 			emit([]string{abortScn(r)})
 		}
+		for i := 0; i < 50; i++ {
+			emit([]string{slowScn(r, i%5 < 3)})
+		}
 		return
 	}
 	// quick: exhaustive for 1 and 2 connections (6 + 36·2 scenarios), then a seeded sample
@@ -2642,6 +2797,9 @@ func (P) Gen(r *core.Rand, tier string, emit func(ops []string)) {
 	}
 	for i := 0; i < 6; i++ {
 		emit([]string{abortScn(r)})
+	}
+	for i := 0; i < 5; i++ {
+		emit([]string{slowScn(r, i < 3)})
 	}
 	// one slow-client scenario (≈ 7–9 s): clients stalled during the drain phase, bodies ≫ socket buffers
 	emit([]string{stallScn(r, r.Range(6500, 8500), r.Chance(1, 2), false)})
